@@ -32,7 +32,7 @@ def ord_of(v):
 
 
 class Model:
-    def __init__(self, cap, threads, plan, spurious=1, hb=False, dofs=0):
+    def __init__(self, cap, threads, plan, spurious=1, hb=False, dofs=0, spawner=None):
         """plan: [(thread index, max steps)], executed chunk after chunk."""
         self.cap, self.threads = cap, threads
         self.chunks = list(plan)
@@ -46,6 +46,7 @@ class Model:
         self.REFS = cap
         self.spurious = spurious
         self.hb = hb
+        self.spawner = spawner  # thread whose completion happens-before the start of every other thread (the set-up thread)
         self.dofs = dofs
         self.cons = []
         self.T = T = len(threads)
@@ -400,6 +401,11 @@ class Model:
         for i in range(self.NW - 2, -1, -1):
             relw = [z3.If(widx == i, H["rel"][i][b], relw[b]) for b in range(T)]
         my = [z3.If(acq, mx(H["vc"][ti][b], relw[b]), H["vc"][ti][b]) for b in range(T)]
+        if self.spawner is not None and ti != self.spawner:
+            # thread creation: everything the spawner did happens-before the first step of this thread
+            start_id = t.points[("start",)].id
+            first = z3.And(sel, at(t.by_id[start_id]))
+            my = [z3.If(first, mx(my[b], H["vc"][self.spawner][b]), my[b]) for b in range(T)]
         for a in range(T):
             for b in range(T):
                 if a != ti:
